@@ -299,6 +299,50 @@ def run_replay(pid, path):
     return 0
 
 
+def _sharded_search(pid, prop, tier, seed, notes):
+    # ---- search: shards on all cores
+    total = int(os.environ.get("SDPV_EXAMPLES", prop.budgets[tier]))
+    nshards = max(1, min(WORKERS, int(os.environ.get("SDPV_SHARDS", WORKERS))))
+    per = (total + nshards - 1) // nshards if total > 0 else 0
+    jobs = [(pid, tier, seed * 1000 + i, i, nshards, per) for i in range(nshards)]
+    ctx = multiprocessing.get_context("fork")
+    with ctx.Pool(nshards) as pool:
+        results = pool.map(_shard, jobs, chunksize=1)
+        errors = [r for r in results if "error" in r]
+        if errors:
+            sys.stderr.write("HARNESS ERROR in shard %s (seed %s):\n%s\n" % (errors[0]["shard"], errors[0]["seed"], errors[0]["error"]))
+            return None, None, None, None
+        merged = {
+            "evals": sum(r["evals"] for r in results),
+            "parses": sum(r["parses"] for r in results),
+            "nontrivial": set().union(*[r["nontrivial"] for r in results]),
+            "labels": sum((r["labels"] for r in results), collections.Counter()),
+            "excluded": sum((r["excluded"] for r in results), collections.Counter()),
+            "samples": [s for r in results for s in r["samples"]],
+            "fired": set().union(*[r["fired"] for r in results]),
+            "prod_total": max(r["prod_total"] for r in results),
+        }
+        buckets = {}
+        for r in results:
+            for b, v in r["viol"].items():
+                cur = buckets.get(b)
+                if cur is None:
+                    buckets[b] = dict(v, seed=r["seed"])
+                else:
+                    cur["count"] += v["count"]
+        # ---- phase B: shrink up to 3 new buckets with Hypothesis
+        todo = sorted(buckets.items(), key=lambda kv: -kv[1]["count"])
+        shrink_jobs = [(pid, tier, v["seed"], per, b, prop.shrink_seconds) for b, v in todo[:3]]
+        if shrink_jobs and os.environ.get("SDPV_NO_SHRINK") != "1" and per > 0:
+            shrunk = pool.map(_shrink, shrink_jobs, chunksize=1)
+            for (b, v), s in zip(todo[:3], shrunk):
+                if s.get("case") is not None:
+                    v["case"], v["message"] = s["case"], s.get("message", v["message"])
+                elif s.get("error"):
+                    notes.append("shrink of %s failed: %s" % (b, s["error"].strip().splitlines()[-1]))
+    return merged, buckets, total, nshards
+
+
 def run_check(pid, tier, seed):
     t0 = time.time()
     prop = get_prop(pid)
@@ -332,46 +376,20 @@ def run_check(pid, tier, seed):
         for b, m in out.violations:
             violations.append(("fixed-case:%s:%s" % (name, b), m, case, 1))
 
-    # ---- search: shards on all cores
-    total = int(os.environ.get("SDPV_EXAMPLES", prop.budgets[tier]))
-    nshards = max(1, min(WORKERS, int(os.environ.get("SDPV_SHARDS", WORKERS))))
-    per = (total + nshards - 1) // nshards if total > 0 else 0
-    jobs = [(pid, tier, seed * 1000 + i, i, nshards, per) for i in range(nshards)]
-    ctx = multiprocessing.get_context("fork")
-    with ctx.Pool(nshards) as pool:
-        results = pool.map(_shard, jobs, chunksize=1)
-        errors = [r for r in results if "error" in r]
-        if errors:
-            sys.stderr.write("HARNESS ERROR in shard %s (seed %s):\n%s\n" % (errors[0]["shard"], errors[0]["seed"], errors[0]["error"]))
-            return 2
-        merged = {
-            "evals": sum(r["evals"] for r in results),
-            "parses": sum(r["parses"] for r in results),
-            "nontrivial": set().union(*[r["nontrivial"] for r in results]),
-            "labels": sum((r["labels"] for r in results), collections.Counter()),
-            "excluded": sum((r["excluded"] for r in results), collections.Counter()),
-            "samples": [s for r in results for s in r["samples"]],
-            "fired": set().union(*[r["fired"] for r in results]),
-            "prod_total": max(r["prod_total"] for r in results),
-        }
+    if getattr(prop, "custom_run", None):
+        # checks that orchestrate whole interpreters themselves (C20): same reporting, own search
+        merged = {"evals": 0, "parses": 0, "nontrivial": set(), "labels": collections.Counter(), "excluded": collections.Counter(),
+                  "samples": [], "fired": set(), "prod_total": loader._COV["total"]}
+        res = prop.custom_run(tier, seed)
+        merged.update({k: res[k] for k in res if k in merged})
         buckets = {}
-        for r in results:
-            for b, v in r["viol"].items():
-                cur = buckets.get(b)
-                if cur is None:
-                    buckets[b] = dict(v, seed=r["seed"])
-                else:
-                    cur["count"] += v["count"]
-        # ---- phase B: shrink up to 3 new buckets with Hypothesis
-        todo = sorted(buckets.items(), key=lambda kv: -kv[1]["count"])
-        shrink_jobs = [(pid, tier, v["seed"], per, b, prop.shrink_seconds) for b, v in todo[:3]]
-        if shrink_jobs and os.environ.get("SDPV_NO_SHRINK") != "1" and per > 0:
-            shrunk = pool.map(_shrink, shrink_jobs, chunksize=1)
-            for (b, v), s in zip(todo[:3], shrunk):
-                if s.get("case") is not None:
-                    v["case"], v["message"] = s["case"], s.get("message", v["message"])
-                elif s.get("error"):
-                    notes.append("shrink of %s failed: %s" % (b, s["error"].strip().splitlines()[-1]))
+        for b, m, case in res.get("violations", []):
+            buckets.setdefault(b, {"count": 0, "case": case, "message": m})["count"] += 1
+        total, nshards = res.get("examples_requested", 0), res.get("shards", 1)
+    else:
+        merged, buckets, total, nshards = _sharded_search(pid, prop, tier, seed, notes)
+        if merged is None:
+            return 2
     for b, v in buckets.items():
         violations.append((b, v["message"], v["case"], v["count"]))
     for b, m, case in prop.finish(tier, merged) or []:
